@@ -22,6 +22,7 @@ from harness import core, diskcheck, diskprop, tlc
 LEVEL = "fault_enumeration"
 
 EVENTS = []
+SECRET = [""]
 _ARMED = {"on": False, "secret": None}
 
 
@@ -164,7 +165,7 @@ def consume(entry, text, work, encoding, how="text", preopen=None):
 STYLES = [{"in_attr": False}, {"in_attr": True}, {"in_attr": False, "pad": 3000}, {"in_attr": True, "pad": 70000}]
 # off-standard document shapes (still "any document" in the property's sense): for these only the refusal of entity
 # declarations and the absence of fetches / hangs is asserted - what a benign document of that shape parses to is not
-SHAPES = [{"shape": "binary-handle", "how": "binary"}, {"shape": "binary-buffered-handle", "how": "binary-buffered", "in_attr": True},
+SHAPES = [{"shape": "xinclude"}, {"shape": "xinclude-xml", "in_attr": True}, {"shape": "binary-handle", "how": "binary"}, {"shape": "binary-buffered-handle", "how": "binary-buffered", "in_attr": True},
           {"shape": "same-path-same-size-after-benign", "preopen": True}, {"shape": "same-path-same-size-after-benign-attr", "preopen": True, "in_attr": True},
           {"shape": "no-namespace"}, {"shape": "legacy-namespace", "in_attr": True}, {"shape": "nul-tail"}, {"shape": "nul-tail-sector", "in_attr": True},
           {"shape": "nul-mid"}, {"shape": "bom"}, {"shape": "ws-tail", "in_attr": True}, {"shape": "pad-64k-1", "pad": 65536 - 60},
@@ -173,6 +174,12 @@ SHAPES = [{"shape": "binary-handle", "how": "binary"}, {"shape": "binary-buffere
 
 
 def reshape(text, shape, rng):
+    if shape in ("xinclude", "xinclude-xml"):
+        # XInclude elements are ordinary elements to a parser that is not asked to process them: nothing may be read
+        inc = (f'<xi:include xmlns:xi="http://www.w3.org/2001/XInclude" href="{SECRET[0]}" parse="text"/>' if shape == "xinclude"
+               else f'<xi:include xmlns:xi="http://www.w3.org/2001/XInclude" href="{SECRET[0]}.dtd"/>')
+        k = text.rindex("</")
+        return text[:k] + inc + text[k:]
     if shape == "no-namespace":
         return text.replace(' xmlns="http://www.virtualbox.org/"', "").replace('xmlns="http://schemas.dmtf.org/ovf/envelope/1" ', "")
     if shape == "legacy-namespace":
@@ -215,6 +222,7 @@ def run(ctx):
     rng = random.Random(ctx.seed + 19)
     work = tempfile.mkdtemp(prefix="verif-c19-")
     secret = os.path.join(work, "secret-verif-xxe.txt")
+    SECRET[0] = secret
     with open(secret, "w") as f:
         f.write("TOP-SECRET-CONTENT")
     for suffix in (".dtd", ".ext.dtd"):
